@@ -212,7 +212,7 @@ def corpus(rng, quick):
     out.append(S("oversize-branch-task", {"StartAt": "P", "States": {"P": {"Type": "Parallel", "End": True, "Branches": [
         {"StartAt": "T", "States": {"T": T("f1", Next="Z", ResultPath="$.dup"), "Z": {"Type": "Pass", "End": True}}},
         {"StartAt": "B", "States": {"B": T("f2")}}]}}}, big, {"f1": [("ok",)], "f2": [("ok",)]}, {"f1": 10, "f2": 30}))
-    out += [w for w in error_sites() if "finding" not in w.extra or finding_status(w.extra["finding"]) == "fixed"]
+    out += [w for w in error_sites() + child_scenarios() if "finding" not in w.extra or finding_status(w.extra["finding"]) == "fixed"]
     # the witnesses of the fan-out protocol findings, once they are repaired (until then C06 runs them and classifies)
     out += [w for w in fan_witnesses() if finding_status(w.extra["finding"]) == "fixed"]
     # minimised / kept past failures (corpus/engine.json)
@@ -370,10 +370,38 @@ def fan_witnesses():
     return out
 
 
+def child_scenarios():
+    """a parent whose Task runs a child execution synchronously and gives up on it (TimeoutSeconds 1, or a sibling branch
+    fails) while the child is blocked: on a single Task, or on a Task and a Wait inside a Parallel state.  The child is a
+    started execution like any other (C02): cancelling what it is blocked on must end it.  The fan-out child is the witness
+    of the open finding C02-F6 (left RUNNING for ever)."""
+    S = explore.Scenario
+    SYNC = "arn:aws:states:local:0123456789:states:startExecution.sync"
+    kids = {
+        "task": {"StartAt": "A", "States": {"A": T("f", Next="B"), "B": T("g")}},
+        "fanout": {"StartAt": "P", "States": {"P": {"Type": "Parallel", "End": True, "Branches": [
+            {"StartAt": "A", "States": {"A": T("f", Next="B"), "B": T("g")}},
+            {"StartAt": "W", "States": {"W": {"Type": "Wait", "Seconds": 30, "End": True}}}]}}},
+    }
+    out = []
+    for kn, kid in kids.items():
+        call = {"Type": "Task", "Resource": SYNC, "End": True, "Parameters": {"Input.$": "$", "StateMachineArn": ARN + "child"}}
+        tag = {"finding": "C02-F6"} if kn == "fanout" else {}
+        out.append(S("child-%s-parent-times-out" % kn, {"StartAt": "T", "States": {"T": dict(call, TimeoutSeconds=1)}}, {"x": 1},
+                     {"f": [("ok",)], "g": [("ok",)]}, {"f": 6000, "g": 10},
+                     extra=dict({"machines": {"child": (kid, "STANDARD")}, "n_rand": 2}, **tag)))
+        out.append(S("child-%s-parent-terminated" % kn, {"StartAt": "P", "States": {"P": {"Type": "Parallel", "End": True, "Branches": [
+            {"StartAt": "T", "States": {"T": call}}, {"StartAt": "H", "States": {"H": T("h")}}]}}}, {"x": 1},
+            {"f": [("ok",)], "g": [("ok",)], "h": [("err", "Sibling.Failed", "m")]}, {"f": 6000, "g": 10, "h": 300},
+            extra=dict({"machines": {"child": (kid, "STANDARD")}, "n_rand": 2}, **tag)))
+    return out
+
+
 def open_witnesses(prop):
     """the scenarios that witness an open finding of `prop` (run by that property's check only, and classified; they join
     the shared corpus once the finding is fixed)"""
-    return [w for w in error_sites() if w.extra.get("finding", "").startswith(prop + "-") and finding_status(w.extra["finding"]) == "open"]
+    return [w for w in error_sites() + child_scenarios()
+            if w.extra.get("finding", "").startswith(prop + "-") and finding_status(w.extra["finding"]) == "open"]
 
 
 def finding_status(fid):
@@ -582,6 +610,15 @@ class Monitor(object):
         self.final_history = hist
         rec = s.record(ea)
         term = rec is not None and rec.get("status") in ("SUCCEEDED", "FAILED")
+        # every execution that was started — a child launch too — has ended once nothing is left to carry any of them
+        # forward (the run is over: no message, no unacknowledged delivery, no timer but heartbeats)
+        if term and s.quiescent_or_idle() and not self.carriers(s):
+            eng = s.engine()
+            for arn in list(eng.executions.keys()):
+                other = eng.executions.get(arn)
+                if arn != ea and other is not None and dict(other).get("status") == "RUNNING":
+                    self.problems.append(("C02.every_started_execution_ends", {"execution": arn, "record": dict(other),
+                                                                               "volatile": s.snapshot_volatile()}))
         # drain clause
         if term and s.quiescent_or_idle():
             v = s.snapshot_volatile()
